@@ -25,6 +25,7 @@ RULE = (
     "read_sectors at arbitrary sector alignment; plus fixed.vhdx/dynamic.vhdx against a naive reference reader. "
     "Non-trivial: >=2 present blocks with non-sequential placement, or blocks beyond the first chunk; "
     "distinct = distinct (block size, sector size, BAT) signatures."
+    " Every stream additionally goes through: continuation sequences (read, visit elsewhere or have another user move the shared handles, resume at the earlier end / buffer end), reads under an injected transient backend I/O error followed by a retry on the same object (the failed call may raise; returned bytes must be right), and long reads (whole disk up to 24 MiB, else 6-24 MiB windows)."
 )
 ASSUMPTIONS = [
     "the harness's VHDX writer/reference reader are a faithful reading of MS-VHDX",
